@@ -674,6 +674,11 @@ func (fg *FG) convert(st *State, x *ssa.Convert) {
 	to := types.Unalias(x.Type()).Underlying()
 	fb, fIsB := from.(*types.Basic)
 	tb, tIsB := to.(*types.Basic)
+	// integer -> floating point: the exact real value (floats are modelled as reals)
+	if fIsB && tIsB && fb.Info()&types.IsInteger != 0 && tb.Info()&types.IsFloat != 0 {
+		fg.bind(x, fmt.Sprintf("(to_real %s)", a.T))
+		return
+	}
 	switch {
 	case fIsB && tIsB && fb.Info()&types.IsInteger != 0 && tb.Info()&types.IsInteger != 0:
 		if bits, ok := isUnsigned(x.Type()); ok {
